@@ -39,8 +39,12 @@ def run_e2(hbin, model, runs, par=4, timeout_s=300, ld=None, listed=lambda r: Fa
         if 'endcase' not in raw:
             status = 'stall' if rc == -999 else f'crash rc={rc}'
             raw = (raw if raw.startswith('case ') else 'case e2 incomplete\n' + raw) + f'\nend {status}\nendcase\n'
-        d = subprocess.run([driver, model], input=raw, capture_output=True, text=True)
-        verdict = d.stdout.strip().split('\n')[0] if d.stdout.strip() else 'case e2 reject 0 [no-driver-output]'
+        try:
+            d = subprocess.run([driver, model], input=raw, capture_output=True, text=True, timeout=3600)
+            dout = d.stdout
+        except subprocess.TimeoutExpired:
+            dout = 'case e2 reject 0 [the model driver did not finish within the wall-clock limit of the check]'
+        verdict = dout.strip().split('\n')[0] if dout.strip() else 'case e2 reject 0 [no-driver-output]'
         res = {'argv': argv, 'raw': raw, 'verdict': verdict, 'err': err, 'rc': rc, 'wall': time.time() - t0}
         if classify_e2(res) == 'monitor' and not listed(res):
             stop.set()
